@@ -2,10 +2,17 @@
    Statements only; proofs in e2e/Proofs.v.  Quantification: EVERY handler function, EVERY
    configuration (request table, connections with protocol and server), EVERY schedule of any
    length over the alphabet start / server handles / response delivered / cancel / release to the
-   pool / peer breaks (induction with the invariant [Inv]).  The pool's guarantees are the
-   decidable hypothesis [sched_ok] (C02 exclusivity + ready-before-reuse, C06 same origin).
+   pool / peer breaks (induction with the invariant [Inv]).  The pool's guarantees enter the
+   theorems of the first part as the decidable hypothesis [sched_ok] (C02 exclusivity +
+   ready-before-reuse, C06 same origin).  That hypothesis is DISCHARGED in the last part of this file
+   (c01_pool_discharges_hypotheses, proofs in e2e/Link.v + e2e/LinkFrames.v): for EVERY combined
+   history of the pool model M-POOL (any pool configuration, any interleaving of pool operations and
+   wire steps, any length) the induced e2e schedule satisfies [sched_ok], from the proved pool
+   theorems C02 (pool/ProofsC02.v) and C06 (pool/ProofsC06.v), under ONE stated, decidable oracle
+   condition on the environment: O1 = a non-multiplexed connection reports ready ([ConnReady c]) only
+   when its exchange queue is empty (hyper's behaviour; neither model proves it).
    Not covered by proof, only exercised by the correspondence run: hyper/h2 framing (that a real
-   connection IS the abstract FIFO / stream-matched connection: R2) and real scheduling (R1). *)
+   connection IS the abstract FIFO / stream-matched connection: R2), real scheduling (R1) and O1. *)
 From HD Require Import common.Base http.Model http.Spec e2e.Model e2e.Spec e2e.Proofs.
 Local Open Scope string_scope.
 
@@ -156,3 +163,106 @@ Example c01_monitor_rejects :
   /\ mon_triple echo_handler (mkTriple q false false None IErr) = false
   /\ mon_triple echo_handler (mkTriple q false false (Some (w, true)) IHang) = false.
 Proof. vm_compute. repeat split. Qed.
+
+(* ------------------------------------------------------------------------------------------------
+   THE POOL HYPOTHESES DISCHARGED (e2e/Link.v, pool-model groundwork in e2e/LinkFrames.v).
+   [sched_ok] -- the hypothesis of c01_matched, c01_server_saw, c01_completes..., c01_invariant --
+   holds for the e2e schedule induced by EVERY combined history of the pool model M-POOL
+   (pool/Model.v): any pool configuration [pc] (its URI table names the origins), any list of
+   steps, each a pool operation (issue / poll / cancel / finish / upgrade / dial outcome /
+   connection ready / connection closed / background run / tick) or a wire step (the server handles
+   a request on a connection, a response is delivered on a connection), of any length.
+   Static data: [ua], and [payload r] = the HTTP request record and body that pool request r carries.
+   [link_cfg]: pool request r = e2e request r (origin = index in the URI table of the key of its
+   Issue); pool connection c = e2e connection c, PH2 iff its observed [ENew c share r0] had
+   share = true, origin = that of the request r0 whose dial created it.
+   [sched_of]: EHand r c |-> EStart r c; for a non-shared c, ERdy c true |-> ERelease c; Cancel r of
+   a live request |-> ECancel r; ConnClose c / Upgrade by a holder of c |-> EBreak c; wire steps in place.
+   The ONLY hypothesis left is the decidable ORACLE condition [o1_ok] on the ENVIRONMENT (hyper):
+     O1  the environment operation [ConnReady c] for a non-multiplexed connection c occurs only when,
+         in the e2e state reached so far, c's exchange queue is empty (a non-multiplexed connection
+         reports ready only after its exchange is over).
+   Proved from the pool theorems: mon_C06_holds (pool/ProofsC06.v) and the step form [step_ok] of
+   mon_C02_holds with its invariant [I] (pool/ProofsC02.v), plus the flag summary [step_sum] of the
+   pool model (e2e/LinkFrames.v). *)
+From HD Require pool.Model e2e.Link.
+Module PM := HD.pool.Model.
+Module L := HD.e2e.Link.
+
+Theorem c01_pool_discharges_hypotheses :
+  forall (pc : PM.config) (ua : string) (payload : nat -> req * body) (handler : N -> wreq -> resp)
+         (h : list L.hstep),
+    L.o1_ok pc ua payload handler h = true ->
+    sched_ok handler (L.link_cfg pc ua payload h) (L.sched_of pc h) = true.
+Proof. exact L.pool_discharges_sched_ok. Qed.
+Print Assumptions c01_pool_discharges_hypotheses.
+
+(* c01_matched with its hypothesis discharged: for every combined history of the pool model that
+   satisfies the oracle condition alone, every response a caller receives is the handler's answer to
+   the wire form of that caller's own request, computed at the server its own URI names *)
+Theorem c01_matched_for_pool_histories :
+  forall (pc : PM.config) (ua : string) (payload : nat -> req * body) (handler : N -> wreq -> resp)
+         (h : list L.hstep) r p,
+    L.o1_ok pc ua payload handler h = true ->
+    In (r, ODone p) (run handler (L.link_cfg pc ua payload h) (L.sched_of pc h)) ->
+    let g := L.link_cfg pc ua payload h in
+    exists q c w, req_of g r = Some q /\ wire_request (g_ua g) (proto_of g c) q = Some w
+                  /\ origin_of g c = q_origin q /\ p = handler (q_origin q) w.
+Proof. exact L.c01_matched_for_pool_histories. Qed.
+Print Assumptions c01_matched_for_pool_histories.
+
+(* likewise c01_server_saw: whatever a server handler is given along such a history is the wire form
+   of a request a caller sent to that server *)
+Theorem c01_server_saw_for_pool_histories :
+  forall (pc : PM.config) (ua : string) (payload : nat -> req * body) (handler : N -> wreq -> resp)
+         (h : list L.hstep) c r w,
+    L.o1_ok pc ua payload handler h = true ->
+    let g := L.link_cfg pc ua payload h in
+    In (c, r, w) (st_log (run_state handler g (L.sched_of pc h))) ->
+    exists q, req_of g r = Some q /\ wire_request (g_ua g) (proto_of g c) q = Some w
+              /\ origin_of g c = q_origin q.
+Proof. exact L.c01_server_saw_for_pool_histories. Qed.
+Print Assumptions c01_server_saw_for_pool_histories.
+
+(* non-vacuity: one origin, one HTTP/1 connection, two requests.  Request 0 dials connection 0, is
+   handed it (EStart 0 0), the server handles it and the response is delivered; the request finishes
+   and releases its handle; the connection reports ready (O1 holds: its queue is empty) and the
+   background hand-back task returns it to the pool (ERelease 0).  Request 1 pops it from the idle
+   list and is handed it (EStart 1 0), and so on.  The oracle condition holds, the induced schedule is
+   the one below, and both requests end ODone with the echo of their OWN wire request. *)
+Definition lx_pool : PM.config := PM.mkCfg true None 1 false [Some ("http", "o0.test")].
+Definition lx_payload (r : nat) : req * body :=
+  let path := if Nat.eqb r 0 then "/r/1" else "/r/2" in
+  (mkReq "GET" V11 (mkUri (Some "http") (Some "o0.test") (Some "o0.test") None (Some path) path None) [("x-id", path)], []).
+Definition lx_hist : list L.hstep :=
+  [L.HOp (PM.Issue 0 PM.H1); L.HOp (PM.Poll 0); L.HOp (PM.DialDone 0 (PM.DOk false)); L.HOp (PM.Poll 0);
+   L.HWire (L.WHandle 0 0); L.HWire (L.WDeliver 0 0);
+   L.HOp (PM.Finish 0); L.HOp (PM.Poll 0); L.HOp (PM.ConnReady 0); L.HOp PM.Bg;
+   L.HOp (PM.Issue 0 PM.H1); L.HOp (PM.Poll 1);
+   L.HWire (L.WHandle 0 1); L.HWire (L.WDeliver 0 1);
+   L.HOp (PM.Finish 1); L.HOp (PM.Poll 1); L.HOp (PM.ConnReady 0); L.HOp PM.Bg]%N.
+
+Example c01_pool_history_example :
+  L.o1_ok lx_pool "ua" lx_payload echo_handler lx_hist = true
+  /\ L.sched_of lx_pool lx_hist
+     = [EStart 0 0; EHandle 0 0; EDeliver 0 0; ERelease 0; EStart 1 0; EHandle 0 1; EDeliver 0 1; ERelease 0]%N
+  /\ g_conns (L.link_cfg lx_pool "ua" lx_payload lx_hist) = [(0%N, (PH1, 0%N))]
+  /\ run echo_handler (L.link_cfg lx_pool "ua" lx_payload lx_hist) (L.sched_of lx_pool lx_hist)
+     = [(0%N, ODone (mkResp 226 [("x-id", "/r/1"); ("x-srv", "0")]
+                       (mkWreq "GET" V11 "/r/1" None [("host", "o0.test"); ("user-agent", "ua"); ("x-id", "/r/1")] [])));
+        (1%N, ODone (mkResp 400 [("x-id", "/r/2"); ("x-srv", "0")]
+                       (mkWreq "GET" V11 "/r/2" None [("host", "o0.test"); ("user-agent", "ua"); ("x-id", "/r/2")] [])))].
+Proof. vm_compute. auto. Qed.
+
+(* the oracle condition is what carries the link: if the environment lets connection 0 report ready
+   while request 0's exchange is still in flight (ConnReady before the response is delivered), O1
+   fails, the pool hands the connection on, and the induced schedule is the cross-talk schedule
+   x_ready of c01_crosstalk_without_pool_guarantees (sched_ok false) *)
+Example c01_pool_history_needs_oracle :
+  let h := [L.HOp (PM.Issue 0 PM.H1); L.HOp (PM.Poll 0); L.HOp (PM.DialDone 0 (PM.DOk false)); L.HOp (PM.Poll 0);
+            L.HWire (L.WHandle 0 0); L.HOp (PM.Finish 0); L.HOp (PM.Poll 0); L.HOp (PM.ConnReady 0); L.HOp PM.Bg;
+            L.HOp (PM.Issue 0 PM.H1); L.HOp (PM.Poll 1); L.HWire (L.WDeliver 0 0)]%N in
+  L.o1_ok lx_pool "ua" lx_payload echo_handler h = false
+  /\ L.sched_of lx_pool h = [EStart 0 0; EHandle 0 0; ERelease 0; EStart 1 0; EDeliver 0 0]%N
+  /\ sched_ok echo_handler (L.link_cfg lx_pool "ua" lx_payload h) (L.sched_of lx_pool h) = false.
+Proof. vm_compute. auto. Qed.
